@@ -87,7 +87,7 @@ func run(c *lib.Ctx) error {
 		name string
 		f    func(*lib.Ctx, string) error
 	}
-	lanes := [][]phase{{{"gen", genReplay}}, {{"hist", histories}}}
+	lanes := [][]phase{{{"gen", genReplay}, {"hist", histories}}} // one after the other: at most 4 TLC processes at a time
 	errs := make([]error, len(lanes))
 	lib.Parallel(len(lanes), len(lanes), func(i int) {
 		for _, ph := range lanes[i] {
